@@ -2,6 +2,7 @@
 # Runs every registered check once (tier from $1, default quick) and prints one line per check.
 cd "$(dirname "$0")/.."
 TIER=${1:-quick}
+mkdir -p .work
 for i in 01 02 03 04 05 06 07 08 09 10 11 12 13 14 15 16 17 18 19 20; do
   s=$(date +%s)
   ./check C$i --tier $TIER > .work/all_C$i.log 2>&1
